@@ -80,7 +80,7 @@ class PES(MPEGPacket):
             _ext_present = True
         else:
             _ext_present = False
-            _len = len(self.header_data)
+            _len = len(self.pesdata)
         self.payload = struct.pack(">BHBH", 0, 1, self.streamid, _len)
         if _ext_present:
             self.payload += struct.pack(">BBB", self.extension_w1, self.extension_w2, len(self.header_data))
